@@ -114,7 +114,7 @@ template <class P> struct H {
           vh::Line o = vh::O(fn("wd321")); putV<3>(o, qdd321); o.emit(); vh::D(fn("wd321") + k); }
         vh::P("conversions_are_inverse", fn("w321") + k + ".inv", (double)(Rot::convertBodyFixed321DotToAngVel(q, qd321) - w).norm() / (ws * sc), 64 * eps());
 
-        if (isF()) return;
+        if (isF() || cls != "generic") return;   // finite differences need h << distance to the singularity
         // ---- finite differences (double): the helpers are true time derivatives
         const double h = 1e-5;
         const double fdTol = 1e-7 * cond2 * cond;   // O(h^2) truncation with third derivatives ~ cond^3, plus rounding eps/h
